@@ -463,15 +463,28 @@ def methods(ctx):
             file = cand[0]["file"] if len(cand) == 1 else None
             s = summarise(f, file)
             hand = not (file or "").split("/")[-1].startswith("autogen")
-            if s["emits"] and not s["dedup"] and (s["problems"] or hand):
-                # hand-written methods (and anything not in one of the recognised statement shapes) are summarised by evaluation;
-                # the statement-shape reading is kept when the evaluation gives no single answer
+            if not s["dedup"] and ((s["emits"] and s["problems"]) or hand):
+                # hand-written methods (and anything not in one of the recognised statement shapes) are summarised by evaluation,
+                # including whether they emit at all (the instruction may be built by a helper); the statement-shape reading is
+                # kept when the evaluation gives no single answer
                 from . import evalsum
                 try:
                     s = evalsum.summarise(ctx, f, s)
+                except evalsum.NoInstruction:
+                    pass
                 except Anchor as ex:
                     if s["problems"]:
                         s["problems"] = s["problems"][:2] + ["evaluation: %s" % ex]
+                    elif not s["emits"]:
+                        pass
+            if s["emits"] and s["problems"] and s["vis"] != "pub":
+                # a private helper that cannot be summarised on its own (e.g. the opcode is a parameter) is covered through the
+                # methods that call it, which are evaluated with it inlined
+                callers = [g["name"] for g in ctx.rspirv.fns(BLD, "Builder") if g["name"] != f["name"] and
+                           any(x[0] == "mcall" and x[2] == f["name"] and path_of(x[1]) == "self" for x in walk(g["body"]))]
+                if callers:
+                    s["emits"] = False
+                    s["helper_of"] = callers
             s["where"] = "%s:%s Builder::%s" % (file, cand[0]["line"], f["name"]) if file else "Builder::%s" % f["name"]
             out.append(s)
         return out
